@@ -71,6 +71,24 @@ def swap_restore(mod, fn, selfname='self'):
                     targets.extend(t.elts if isinstance(t, (ast.Tuple, ast.List)) else [t])
                 values = node.value.elts if isinstance(node.value, (ast.Tuple, ast.List)) and len(targets) == len(
                     getattr(node.value, 'elts', [])) else [node.value] * len(targets)
+                # `saved = (self.a, self.b)`: one local holds the saved values of several attributes, by position
+                if len(targets) == 1 and isinstance(targets[0], ast.Name) and isinstance(node.value, (ast.Tuple, ast.List)) and node.value.elts \
+                        and all(isinstance(v, ast.Attribute) and isinstance(v.value, ast.Name) and v.value.id == selfname for v in node.value.elts):
+                    for i_, v in enumerate(node.value.elts):
+                        saved[v.attr] = f'{targets[0].id}[{i_}]'
+                    return (tuple(sorted(saved.items())), tuple(sorted(status.items())), facts)
+                # `self.a, self.b = saved`: restore by position from such a local
+                if len(targets) > 1 and isinstance(node.value, ast.Name) and all(
+                        isinstance(t, ast.Attribute) and isinstance(t.value, ast.Name) and t.value.id == selfname for t in targets):
+                    for i_, t in enumerate(targets):
+                        a = t.attr
+                        if saved.get(a) == f'{node.value.id}[{i_}]':
+                            status[a] = 'restored'
+                        elif a in saved:
+                            status[a] = 'swapped'
+                        else:
+                            status[a] = 'written-without-local-save'
+                    return (tuple(sorted(saved.items())), tuple(sorted(status.items())), facts)
                 for t, v in zip(targets, values):
                     if isinstance(t, ast.Name) and isinstance(v, ast.Attribute) and isinstance(v.value, ast.Name) \
                             and v.value.id == selfname:
@@ -78,7 +96,7 @@ def swap_restore(mod, fn, selfname='self'):
                     elif isinstance(t, ast.Name):
                         # a local that held a saved copy is overwritten
                         for a, l in list(saved.items()):
-                            if l == t.id:
+                            if l == t.id or l.startswith(t.id + '['):
                                 saved.pop(a)
                     if isinstance(t, ast.Attribute) and isinstance(t.value, ast.Name) and t.value.id == selfname:
                         a = t.attr
@@ -244,7 +262,7 @@ def run(ctx, report: Report) -> None:
                                                              and d.value.id in ('self', 'cls') for d in defs if d is not None)
                     indirect = (isinstance(node.func, ast.Name) and bound_in(mod, fnq, node.func.id)) or isinstance(
                         node.func, (ast.Subscript, ast.Call, ast.IfExp))
-                    internal = alias_of_method or indirect or cn.startswith(('self.', 'cls.')) or cn.split('.')[0] in ('cm', 'ct', 'cp', 'util') \
+                    internal = alias_of_method or indirect or src.resolve_class_ref(mod, node.func) is not None or cn.startswith(('self.', 'cls.')) or cn.split('.')[0] in ('cm', 'ct', 'cp', 'util') \
                         or cn in mod.functions or cn.split('.')[-1] in {q.split('.')[-1] for q in mmod.functions} \
                         or cn in ('CSSMatch', '_FakeParent') or cn.endswith('.match') or cn.endswith('.search')
                     ok = internal or cn in PURE_EXTERNAL or cn.split('.')[-1] in ('append', 'extend', 'join')
@@ -363,8 +381,23 @@ def run(ctx, report: Report) -> None:
             loops = [n for n in walk_no_nested(fn) if isinstance(n, ast.For) and unparse(n.iter) == cache]
             entry = c.args[0]
             problems = []
+            elsewhere = []
             if not loops:
-                problems.append('the function never looks the memo up')
+                # lookup and store may live in different helper methods (lookup first, compute and store on a miss)
+                for q2, fn2 in mmod.functions.items():
+                    if fn2 is not fn:
+                        elsewhere += [n for n in walk_no_nested(fn2) if isinstance(n, ast.For) and unparse(n.iter) == cache]
+            if not loops and not elsewhere:
+                problems.append('the memo is never looked up')
+            elif not loops:
+                # the names of the key variables differ between the two functions: only the identity discipline of the lookup is
+                # checked here; what is stored under which key is decided by the memo tables (lang_memo_table, default / indeterminate
+                # tables, the look-alike rows of the pipeline tables)
+                for lk in elsewhere:
+                    first_if = next((x for x in lk.body if isinstance(x, ast.If)), None)
+                    cmps = [x for x in ast.walk(first_if.test if first_if is not None else lk) if isinstance(x, ast.Compare)]
+                    if cmps and not any(isinstance(x.ops[0], (ast.Is, ast.IsNot)) for x in cmps):
+                        problems.append('the lookup (in another method) compares the primary key with ==, not by identity')
             else:
                 lk = loops[0]
                 tvars = [e.id for e in lk.target.elts] if isinstance(lk.target, ast.Tuple) else [lk.target.id]
